@@ -383,7 +383,15 @@ def possible_objects(desc, name):
 
 
 def _type_resolver(key):
-    return lambda value, ctx, info: value.get(key)
+    def resolve_type(value, ctx, info):
+        boom = value.get("__boom__") if isinstance(value, dict) else None
+        if boom is not None:
+            # a user resolve_type raising the library's error (only in the "rtraise" cases of props/c04.py)
+            err = ResolverError("cannot resolve type %s" % boom, extensions={"why": boom})
+            err._c04_user = True
+            raise err
+        return value.get(key)
+    return resolve_type
 
 
 def build_schema(desc, resolver):
